@@ -57,6 +57,8 @@ def run(tier):
         else:
             strings += ["".join(rnd.choice(ALPHA) for _ in range(3)) for _ in range(15000)]
     strings += ["".join(rnd.choice(ALPHA) for _ in range(rnd.randint(4, 120))) for _ in range(100 if tier == "quick" else 1000)]
+    # hyphen runs in texts that are otherwise already slugs; texts whose base64 form decodes to bytes that are not UTF-8
+    strings += ["a--b", "a---b", "2024-01--draft", "-a", "a-", "a--", "--a--b--", "ab-cd", "well--known", "x-", "-", "--", "a-b--c"]
     strings = list(dict.fromkeys(strings))
     jobs = []
     for s in strings:
@@ -149,6 +151,14 @@ def run(tier):
                 o = {"f": "json", "enc": cps(e.get("out", "")) if e.get("ok") else [-1], "tree": tree(v), "src": json.dumps(v)[:200]}
                 f.write(json.dumps(o) + "\n")
                 recs.append(o)
+    # well-formed base64 whose payload is not UTF-8: invalid input to the decoder, an error (not a repaired text)
+    for enc_ in ("/w==", "gA==", "wyg=", "7aCA", "8JCA", "/w", "_w=="):
+        for us_ in ("true", "false"):
+            rj = vp.run_jobs([{"cfg": {"contrib": True}, "ctx": {"s": enc_}, "steps": [{"op": "render_str", "src": "{{ s | b64_decode(url_safe=%s) }}" % us_, "auto": False}]}], tag="c20-nonutf8")[0][0]
+            C.count()
+            C.nontrivial(["non-utf8", enc_, us_])
+            if rj.get("ok") or rj.get("panic"):
+                C.violation({"kind": "b64-non-utf8", "enc": enc_, "url_safe": us_}, "b64_decode(url_safe=%s) of %r, whose payload is not UTF-8, gives %r" % (us_, enc_, rj.get("out", "panic")), {"enc": enc_})
     # options of the wrong kind, and the codecs applied on a set block / as a filter section: an error value, never a panic
     ojobs = []
     for call in ("b64_encode(url_safe=1)", "b64_encode(padded='no')", "b64_decode(url_safe=1)", "b64_decode(url_safe=none)", "json_encode(pretty='true')", "json_encode(pretty=none)", "urlencode(x=1)",
